@@ -101,7 +101,7 @@ def plan(tier, seed):
     rng = P.rng("spokes")
     for i in range(150 if quick else 2500):
         ns = int(rng.integers(1, 7))
-        scale = float(10 ** rng.uniform(-3, np.log10(30)))
+        scale = float(10 ** rng.uniform(-7 if i % 4 == 3 else -3, np.log10(30)))
         k = (rng.standard_normal((ns, 2)) * scale).tolist()
         if ns > 1 and rng.random() < 0.2:
             k[1] = list(k[0])                      # repeated location: zero increment
